@@ -62,29 +62,70 @@ fn main() {
                 // panic inside a destructor during unwinding, a stack overflow) must end up as a
                 // reported violation, not as a dead checker.
                 let exe = std::env::current_exe().unwrap();
-                let st = std::process::Command::new(&exe).args(&args[1..]).env("TRSIM_CHILD", "1").status();
+                // watchdog: code under test that blocks its thread for ever (a lock taken twice, a
+                // loop without an await) must not hang the checker
+                let limit_s: u64 = std::env::var("TRSIM_TIMEOUT_S").ok().and_then(|s| s.parse().ok()).unwrap_or(if tier == Tier::Thorough { 6 * 3600 } else { 600 });
+                let mut child = std::process::Command::new(&exe).args(&args[1..]).env("TRSIM_CHILD", "1").spawn().expect("spawn");
+                let started = std::time::Instant::now();
+                let mut hung = false;
+                let st = loop {
+                    match child.try_wait() {
+                        Ok(Some(s)) => break Ok(s),
+                        Ok(None) => {
+                            if started.elapsed().as_secs() > limit_s {
+                                let _ = child.kill();
+                                hung = true;
+                                break child.wait();
+                            }
+                            std::thread::sleep(std::time::Duration::from_millis(50));
+                        }
+                        Err(e) => break Err(e),
+                    }
+                };
                 match st.as_ref().map(|s| s.code()) {
-                    Ok(Some(c)) if c == 0 || c == 1 || c == 2 => std::process::exit(c),
+                    Ok(Some(c)) if !hung && (c == 0 || c == 1 || c == 2) => std::process::exit(c),
                     other => {
-                        println!("the checking process died ({:?}); looking for the run that kills it", other);
+                        println!("the checking process {} ({:?}); looking for the run that does it", if hung { "did not finish within its time limit" } else { "died" }, other);
                         let idx_file = format!("{}/out/abort-index-{}-{}", opts.verif_dir, id, std::process::id());
                         let _ = std::fs::create_dir_all(format!("{}/out", opts.verif_dir));
                         let _ = std::fs::remove_file(&idx_file);
-                        let st2 = std::process::Command::new(&exe)
+                        let mut c2 = std::process::Command::new(&exe)
                             .args(&args[1..])
                             .arg("--no-evidence")
                             .env("TRSIM_CHILD", "1")
                             .env("TRSIM_INDEX_FILE", &idx_file)
                             .stdout(std::process::Stdio::null())
                             .stderr(std::process::Stdio::null())
-                            .status();
-                        let died = !matches!(st2.as_ref().map(|s| s.code()), Ok(Some(0)) | Ok(Some(1)) | Ok(Some(2)));
+                            .spawn()
+                            .expect("spawn");
+                        // one thread, the index of the run about to start is in the file: a run that
+                        // takes longer than two minutes is the one that hangs
+                        let mut last = (String::new(), std::time::Instant::now());
+                        let mut stuck = false;
+                        let st2 = loop {
+                            match c2.try_wait() {
+                                Ok(Some(s)) => break Ok(s),
+                                Ok(None) => {
+                                    let cur = std::fs::read_to_string(&idx_file).unwrap_or_default();
+                                    if cur != last.0 {
+                                        last = (cur, std::time::Instant::now());
+                                    } else if last.1.elapsed().as_secs() > 120 {
+                                        let _ = c2.kill();
+                                        stuck = true;
+                                        break c2.wait();
+                                    }
+                                    std::thread::sleep(std::time::Duration::from_millis(100));
+                                }
+                                Err(e) => break Err(e),
+                            }
+                        };
+                        let died = stuck || !matches!(st2.as_ref().map(|s| s.code()), Ok(Some(0)) | Ok(Some(1)) | Ok(Some(2)));
                         let idx = std::fs::read_to_string(&idx_file).ok().and_then(|s| s.trim().parse::<u64>().ok());
                         let _ = std::fs::remove_file(&idx_file);
                         match (died, idx) {
                             (true, Some(i)) => {
-                                let path = driver::write_abort_replay(p.as_ref(), &opts, i, &format!("{:?}", st2.map(|s| s.to_string())));
-                                println!("violation detail: {}.process_abort [] run {} kills the process that executes it (abort, not an unwinding panic): {}", id, i, path);
+                                let path = driver::write_abort_replay(p.as_ref(), &opts, i, &if stuck { "the run never ends (killed after two minutes)".to_string() } else { format!("{:?}", st2.map(|s| s.to_string())) });
+                                println!("violation detail: {}.process_abort [] run {} {} the process that executes it: {}", id, i, if stuck { "never ends and blocks" } else { "kills (abort, not an unwinding panic)" }, path);
                                 println!("VIOLATION property={} replay={}", id, path);
                                 std::process::exit(1);
                             }
@@ -124,8 +165,24 @@ fn main() {
             if j["rule"].as_str().map(|r| r.ends_with(".process_abort")).unwrap_or(false) && std::env::var_os("TRSIM_CHILD").is_none() {
                 // the recorded run kills its process: execute it in a child and report how it ended
                 let exe = std::env::current_exe().unwrap();
-                let st = std::process::Command::new(exe).args(&args[1..]).env("TRSIM_CHILD", "1").stdout(std::process::Stdio::null()).stderr(std::process::Stdio::null()).status();
-                let died = !matches!(st.as_ref().map(|s| s.code()), Ok(Some(0)) | Ok(Some(1)) | Ok(Some(2)) | Ok(Some(3)));
+                let mut c = std::process::Command::new(exe).args(&args[1..]).env("TRSIM_CHILD", "1").stdout(std::process::Stdio::null()).stderr(std::process::Stdio::null()).spawn().expect("spawn");
+                let t0 = std::time::Instant::now();
+                let mut stuck = false;
+                let st = loop {
+                    match c.try_wait() {
+                        Ok(Some(s)) => break Ok(s),
+                        Ok(None) => {
+                            if t0.elapsed().as_secs() > 120 {
+                                let _ = c.kill();
+                                stuck = true;
+                                break c.wait();
+                            }
+                            std::thread::sleep(std::time::Duration::from_millis(50));
+                        }
+                        Err(e) => break Err(e),
+                    }
+                };
+                let died = stuck || !matches!(st.as_ref().map(|s| s.code()), Ok(Some(0)) | Ok(Some(1)) | Ok(Some(2)) | Ok(Some(3)));
                 if !quiet {
                     println!("REPLAY property={} reproduced={} :: the run {} its process ({:?})", id, died, if died { "killed" } else { "did not kill" }, st.map(|s| s.to_string()));
                 }
